@@ -281,9 +281,10 @@ fn calculate_frequency_p0f_style(
     // Calculate frequency with backward timestamp handling
     let effective_ms_diff = ms_diff.max(1);
     let raw_freq = if ts_diff > !ts_diff {
-        // Timestamp went backward - use inverted difference
+        // Timestamp went backward - p0f yields a negative rate here (`~ts_diff * -1000.0 / ms_diff`),
+        // which the range check below rejects: no uptime is derived from a clock that stepped back
         let inverted_diff = !ts_diff;
-        (inverted_diff as f64 * 1000.0) / (effective_ms_diff as f64)
+        -(inverted_diff as f64 * 1000.0) / (effective_ms_diff as f64)
     } else {
         // Normal forward progression
         (ts_diff as f64 * 1000.0) / (effective_ms_diff as f64)
